@@ -71,22 +71,25 @@ theorem dispatch_stable {I : World σ → Prop} (hI : Stable I) (cfg : Cfg σ) :
 
 /-! ### frame: control state that no instrumented call touches -/
 
-/-- `w'` has the same class table, current journal, captured tables, previous links and log as `w`. -/
+/-- `w'` has the same class table, current journal, captured tables, previous links, active
+    flags and log as `w`. -/
 structure SameCtl (w w' : World σ) : Prop where
   table : w'.table = w.table
   current : w'.current = w.current
   captured : ∀ i, (w'.journals i).captured = (w.journals i).captured
   previous : ∀ i, (w'.journals i).previous = (w.journals i).previous
+  active : ∀ i, (w'.journals i).active = (w.journals i).active
   log : w'.log = w.log
 
-theorem SameCtl.refl (w : World σ) : SameCtl w w := ⟨rfl, rfl, fun _ => rfl, fun _ => rfl, rfl⟩
+theorem SameCtl.refl (w : World σ) : SameCtl w w :=
+  ⟨rfl, rfl, fun _ => rfl, fun _ => rfl, fun _ => rfl, rfl⟩
 
 theorem sameCtl_stable (w : World σ) : Stable (SameCtl w) where
-  put := fun w' s h => ⟨h.table, h.current, h.captured, h.previous, h.log⟩
-  emit := fun w' e h => ⟨h.table, h.current, h.captured, h.previous, h.log⟩
+  put := fun w' s h => ⟨h.table, h.current, h.captured, h.previous, h.active, h.log⟩
+  emit := fun w' e h => ⟨h.table, h.current, h.captured, h.previous, h.active, h.log⟩
   record := by
     intro w' j k t h
-    refine ⟨h.table, h.current, ?_, ?_, h.log⟩
+    refine ⟨h.table, h.current, ?_, ?_, ?_, h.log⟩
     · intro i
       simp only [record, upd]
       split
@@ -97,6 +100,11 @@ theorem sameCtl_stable (w : World σ) : Stable (SameCtl w) where
       split
       · next hi => subst hi; exact h.previous i
       · exact h.previous i
+    · intro i
+      simp only [record, upd]
+      split
+      · next hi => subst hi; exact h.active i
+      · exact h.active i
 
 theorem dispatch_frame (cfg : Cfg σ) (f slot : Nat) (s : Obj) (a : Val) (w : World σ) :
     SameCtl w (dispatch cfg f slot s a w).1 :=
@@ -107,44 +115,154 @@ theorem runProg_frame (cfg : Cfg σ) (f : Nat) (p : Prog σ) (w : World σ) :
   runProg_stable (sameCtl_stable w) (fun s o a w' h => dispatch_stable (sameCtl_stable w) cfg f s o a w' h)
     p w (SameCtl.refl w)
 
-/-! ### blocks: journals not entered in a block keep their captured table -/
+/-! ### blocks: an active journal keeps its control fields; tables are restored -/
 
-theorem enter_other (j i : Nat) (w : World σ) (h : i ≠ j) : (enter j w).journals i = w.journals i := by
-  simp [enter, upd, h]
+theorem enterRaw_other (j i : Nat) (w : World σ) (h : i ≠ j) :
+    (enterRaw j w).journals i = w.journals i := by
+  simp [enterRaw, upd, h]
 
-theorem exit_journals (j : Nat) (w : World σ) : (exit j w).journals = w.journals := by
-  simp only [exit]; split <;> rfl
+theorem exit_other (j i : Nat) (w : World σ) (h : i ≠ j) : (exit j w).journals i = w.journals i := by
+  simp only [exit]
+  split
+  · rfl
+  · simp [upd, h]
 
-theorem runBlock_captured (cfg : Cfg σ) (fuel : Nat) :
-    ∀ (b : Block σ) (w : World σ) (i : Nat), i ∉ journalsOf b →
+theorem exit_captured (j i : Nat) (w : World σ) :
+    ((exit j w).journals i).captured = (w.journals i).captured := by
+  simp only [exit]
+  split
+  · rfl
+  · simp only [upd]
+    split
+    · next h => subst h; rfl
+    · rfl
+
+theorem exit_entries (j i : Nat) (w : World σ) :
+    ((exit j w).journals i).entries = (w.journals i).entries := by
+  simp only [exit]
+  split
+  · rfl
+  · simp only [upd]
+    split
+    · next h => subst h; rfl
+    · rfl
+
+theorem runBlock_withJ_refused (cfg : Cfg σ) (fuel j : Nat) (body : Block σ) (w : World σ)
+    (h : (w.journals j).active = true) :
+    runBlock cfg fuel (.withJ j body) w = (w, some enterExn) := by
+  simp [runBlock, enter, h]
+
+theorem runBlock_withJ_entered (cfg : Cfg σ) (fuel j : Nat) (body : Block σ) (w : World σ)
+    (h : (w.journals j).active = false) :
+    runBlock cfg fuel (.withJ j body) w =
+      (exit j (runBlock cfg fuel body (enterRaw j w)).1, (runBlock cfg fuel body (enterRaw j w)).2) := by
+  simp [runBlock, enter, h]
+
+/-- A journal that is active keeps its captured table, previous link and active flag through any
+    block: its own `__enter__` is refused, and nothing else writes them. -/
+theorem runBlock_frame_active (cfg : Cfg σ) (fuel : Nat) :
+    ∀ (b : Block σ) (w : World σ) (i : Nat), (w.journals i).active = true →
       ((runBlock cfg fuel b w).1.journals i).captured = (w.journals i).captured ∧
-      ((runBlock cfg fuel b w).1.journals i).previous = (w.journals i).previous := by
+      ((runBlock cfg fuel b w).1.journals i).previous = (w.journals i).previous ∧
+      ((runBlock cfg fuel b w).1.journals i).active = true := by
   intro b
   induction b with
-  | skip => intro w i _; exact ⟨rfl, rfl⟩
+  | skip => intro w i h; exact ⟨rfl, rfl, h⟩
   | op p =>
-    intro w i _
-    have h := runProg_frame cfg fuel p w
-    exact ⟨h.captured i, h.previous i⟩
+    intro w i h
+    have hf := runProg_frame cfg fuel p w
+    exact ⟨hf.captured i, hf.previous i, (hf.active i).trans h⟩
   | seq a b iha ihb =>
     intro w i hi
-    simp only [journalsOf, List.mem_append, not_or] at hi
-    have h1 := iha w i hi.1
+    have h1 := iha w i hi
     simp only [runBlock]
     split
-    · have h2 := ihb (runBlock cfg fuel a w).1 i hi.2
-      exact ⟨h2.1.trans h1.1, h2.2.trans h1.2⟩
+    · have h2 := ihb (runBlock cfg fuel a w).1 i h1.2.2
+      exact ⟨h2.1.trans h1.1, h2.2.1.trans h1.2.1, h2.2.2⟩
     · exact h1
   | withJ j body ih =>
     intro w i hi
-    simp only [journalsOf, List.mem_cons, not_or] at hi
-    have h1 := ih (enter j w) i hi.2
-    simp only [runBlock, exit_journals]
-    rw [enter_other j i w hi.1] at h1
-    exact h1
+    cases hj : (w.journals j).active with
+    | true => rw [runBlock_withJ_refused cfg fuel j body w hj]; exact ⟨rfl, rfl, hi⟩
+    | false =>
+      rw [runBlock_withJ_entered cfg fuel j body w hj]
+      have hij : i ≠ j := by intro e; subst e; rw [hi] at hj; cases hj
+      have hi1 : ((enterRaw j w).journals i).active = true := by rw [enterRaw_other j i w hij]; exact hi
+      have h1 := ih (enterRaw j w) i hi1
+      rw [enterRaw_other j i w hij] at h1
+      show ((exit j _).journals i).captured = _ ∧ ((exit j _).journals i).previous = _ ∧ ((exit j _).journals i).active = true
+      rw [exit_other j i _ hij]
+      exact h1
   | attempt body ih =>
     intro w i hi
     exact ih w i hi
+
+/-- table and current journal after any block are those before it -/
+theorem block_restore (cfg : Cfg σ) (fuel : Nat) :
+    ∀ (b : Block σ) (w : World σ),
+      (runBlock cfg fuel b w).1.table = w.table ∧ (runBlock cfg fuel b w).1.current = w.current := by
+  intro b
+  induction b with
+  | skip => intro w; exact ⟨rfl, rfl⟩
+  | op p =>
+    intro w
+    have h := runProg_frame cfg fuel p w
+    exact ⟨h.table, h.current⟩
+  | seq a b iha ihb =>
+    intro w
+    have h1 := iha w
+    simp only [runBlock]
+    split
+    · have h2 := ihb (runBlock cfg fuel a w).1
+      exact ⟨h2.1.trans h1.1, h2.2.trans h1.2⟩
+    · exact h1
+  | withJ j body ih =>
+    intro w
+    cases hj : (w.journals j).active with
+    | true => rw [runBlock_withJ_refused cfg fuel j body w hj]; exact ⟨rfl, rfl⟩
+    | false =>
+      rw [runBlock_withJ_entered cfg fuel j body w hj]
+      have hact : ((enterRaw j w).journals j).active = true := by simp [enterRaw, upd]
+      have hc := runBlock_frame_active cfg fuel body (enterRaw j w) j hact
+      have hcap : ((runBlock cfg fuel body (enterRaw j w)).1.journals j).captured = some w.table := by
+        rw [hc.1]; simp [enterRaw, upd]
+      have hprev : ((runBlock cfg fuel body (enterRaw j w)).1.journals j).previous = w.current := by
+        rw [hc.2.1]; simp [enterRaw, upd]
+      simp [exit, hcap, hprev]
+  | attempt body ih =>
+    intro w
+    exact ih w
+
+/-- so are the active flags -/
+theorem block_active_restore (cfg : Cfg σ) (fuel : Nat) :
+    ∀ (b : Block σ) (w : World σ) (i : Nat),
+      ((runBlock cfg fuel b w).1.journals i).active = (w.journals i).active := by
+  intro b
+  induction b with
+  | skip => intro w i; rfl
+  | op p => intro w i; exact (runProg_frame cfg fuel p w).active i
+  | seq a b iha ihb =>
+    intro w i
+    simp only [runBlock]
+    split
+    · exact (ihb _ i).trans (iha w i)
+    · exact iha w i
+  | withJ j body ih =>
+    intro w i
+    cases hj : (w.journals j).active with
+    | true => rw [runBlock_withJ_refused cfg fuel j body w hj]
+    | false =>
+      rw [runBlock_withJ_entered cfg fuel j body w hj]
+      by_cases hij : i = j
+      · subst hij
+        have hact : ((enterRaw i w).journals i).active = true := by simp [enterRaw, upd]
+        have hc := runBlock_frame_active cfg fuel body (enterRaw i w) i hact
+        have hcap : ((runBlock cfg fuel body (enterRaw i w)).1.journals i).captured = some w.table := by
+          rw [hc.1]; simp [enterRaw, upd]
+        simp [exit, hcap, upd, hj]
+      · show ((exit j _).journals i).active = _
+        rw [exit_other j i _ hij, ih (enterRaw j w) i, enterRaw_other j i w hij]
+  | attempt body ih => intro w i; exact ih w i
 
 /-! ### simulation: a journaled world against the plain one -/
 
@@ -286,17 +404,20 @@ theorem capturedOk_of_sameCtl {w w' : World σ} (h : SameCtl w w') (hc : Capture
   rw [h.captured j] at ht
   exact hc j t ht
 
-/-- Block level: a block run with journals against the stripped block run on the plain table. -/
+/-- Block level: a block run with journals against the stripped block run on the plain table.
+    No `__enter__` is refused: no re-entry inside the block, and the block's journals are not
+    active when it starts. -/
 theorem block_rel (cfg : Cfg σ) (hinit : InitNone cfg) (hdet : DetailsOk cfg) (fuel : Nat) :
-    ∀ (b : Block σ) (w w0 : World σ), Rel w w0 → CapturedOk w →
+    ∀ (b : Block σ) (w w0 : World σ), Rel w w0 → CapturedOk w → NoReentry b →
+      (∀ j ∈ journalsOf b, (w.journals j).active = false) →
       Rel (runBlock cfg fuel b w).1 (runBlock cfg fuel (strip b) w0).1 ∧
       CapturedOk (runBlock cfg fuel b w).1 ∧
       (runBlock cfg fuel b w).2 = (runBlock cfg fuel (strip b) w0).2 := by
   intro b
   induction b with
-  | skip => intro w w0 h hc; exact ⟨h, hc, rfl⟩
+  | skip => intro w w0 h hc _ _; exact ⟨h, hc, rfl⟩
   | op p =>
-    intro w w0 h hc
+    intro w w0 h hc _ _
     have h1 := runProg_rel (dispatch_rel cfg hinit hdet fuel) p w w0 h
     have hf := runProg_frame cfg fuel p w
     simp only [runBlock, strip]
@@ -307,29 +428,42 @@ theorem block_rel (cfg : Cfg σ) (hinit : InitNone cfg) (hdet : DetailsOk cfg) (
     · intro j t ht
       exact capturedOk_of_sameCtl hf hc j t ht
   | seq a b iha ihb =>
-    intro w w0 h hc
-    have h1 := iha w w0 h hc
+    intro w w0 h hc hn hfresh
+    have hfa : ∀ j ∈ journalsOf a, (w.journals j).active = false :=
+      fun j hj => hfresh j (by simp [journalsOf, hj])
+    have h1 := iha w w0 h hc hn.1 hfa
     simp only [runBlock, strip]
     rw [← h1.2.2]
     split
-    · exact ihb _ _ h1.1 h1.2.1
+    · have hfb : ∀ j ∈ journalsOf b, ((runBlock cfg fuel a w).1.journals j).active = false := by
+        intro j hj
+        rw [block_active_restore]
+        exact hfresh j (by simp [journalsOf, hj])
+      exact ihb _ _ h1.1 h1.2.1 hn.2 hfb
     · exact ⟨h1.1, h1.2.1, rfl⟩
   | withJ j body ih =>
-    intro w w0 h hc
-    have hrel : Rel (enter j w) w0 := by
+    intro w w0 h hc hn hfresh
+    have hj : (w.journals j).active = false := hfresh j (by simp [journalsOf])
+    have hrel : Rel (enterRaw j w) w0 := by
       refine ⟨h.ir, h.log, ?_, ?_, h.plain⟩
       · show List.filter isCall (w.trace ++ [Ev.enter j]) = _
         rw [List.filter_append]; simpa [isCall] using h.calls
       · intro k; exact ⟨rfl, h.chain k⟩
-    have hcap : CapturedOk (enter j w) := by
+    have hcap : CapturedOk (enterRaw j w) := by
       intro i t ht
       by_cases hi : i = j
       · subst hi
-        simp [enter, upd] at ht
+        simp [enterRaw, upd] at ht
         subst ht; exact h.chain
-      · rw [enter_other j i w hi] at ht; exact hc i t ht
-    have h1 := ih (enter j w) w0 hrel hcap
-    simp only [runBlock, strip]
+      · rw [enterRaw_other j i w hi] at ht; exact hc i t ht
+    have hfb : ∀ i ∈ journalsOf body, ((enterRaw j w).journals i).active = false := by
+      intro i hi
+      have hij : i ≠ j := by intro e; subst e; exact hn.1 hi
+      rw [enterRaw_other j i w hij]
+      exact hfresh i (by simp [journalsOf, hi])
+    have h1 := ih (enterRaw j w) w0 hrel hcap hn.2 hfb
+    rw [runBlock_withJ_entered cfg fuel j body w hj]
+    simp only [strip]
     refine ⟨?_, ?_, h1.2.2⟩
     · simp only [exit]
       split
@@ -339,11 +473,12 @@ theorem block_rel (cfg : Cfg σ) (hinit : InitNone cfg) (hdet : DetailsOk cfg) (
         show List.filter isCall (_ ++ [Ev.exit j]) = _
         rw [List.filter_append]; simpa [isCall] using h1.1.calls
     · intro i t ht
-      rw [exit_journals] at ht
-      exact h1.2.1 i t ht
+      have ht' : ((exit j (runBlock cfg fuel body (enterRaw j w)).1).journals i).captured = some t := ht
+      rw [exit_captured] at ht'
+      exact h1.2.1 i t ht'
   | attempt body ih =>
-    intro w w0 h hc
-    have h1 := ih w w0 h hc
+    intro w w0 h hc hn hfresh
+    have h1 := ih w w0 h hc hn hfresh
     exact ⟨h1.1, h1.2.1, rfl⟩
 
 /-! ### accounting of entries -/
@@ -544,131 +679,109 @@ def Balanced (owner : Obj → Obj) (j : Nat) (act : Bool) (evs : List Ev) : Prop
 theorem cnt_enter (j i : Nat) (t : Table) (k : Nat) :
     (Impl.wrap i k (t k)).cnt j = (if i = j then 1 else 0) + (t k).cnt j := rfl
 
-/-- table and current journal after a block without re-entry are those before it -/
-theorem block_restore (cfg : Cfg σ) (fuel : Nat) :
-    ∀ (b : Block σ) (w : World σ), NoReentry b →
-      (runBlock cfg fuel b w).1.table = w.table ∧ (runBlock cfg fuel b w).1.current = w.current := by
-  intro b
-  induction b with
-  | skip => intro w _; exact ⟨rfl, rfl⟩
-  | op p =>
-    intro w _
-    have h := runProg_frame cfg fuel p w
-    exact ⟨h.table, h.current⟩
-  | seq a b iha ihb =>
-    intro w hn
-    have h1 := iha w hn.1
-    simp only [runBlock]
-    split
-    · have h2 := ihb (runBlock cfg fuel a w).1 hn.2
-      exact ⟨h2.1.trans h1.1, h2.2.trans h1.2⟩
-    · exact h1
-  | withJ j body ih =>
-    intro w hn
-    have hc := runBlock_captured cfg fuel body (enter j w) j hn.1
-    have hcap : ((runBlock cfg fuel body (enter j w)).1.journals j).captured = some w.table := by
-      rw [hc.1]; simp [enter, upd]
-    have hprev : ((runBlock cfg fuel body (enter j w)).1.journals j).previous = w.current := by
-      rw [hc.2]; simp [enter, upd]
-    simp [runBlock, exit, hcap, hprev]
-  | attempt body ih =>
-    intro w hn
-    exact ih w hn
-
-theorem ent_enter (j i : Nat) (w : World σ) : ent j (enter i w) = ent j w := by
-  simp only [ent, enter, upd]
+theorem ent_enterRaw (j i : Nat) (w : World σ) : ent j (enterRaw i w) = ent j w := by
+  simp only [ent, enterRaw, upd]
   split
   · next h => subst h; rfl
   · rfl
 
+theorem ent_exit (j i : Nat) (w : World σ) : ent j (exit i w) = ent j w := exit_entries i j w
+
+theorem trace_exit_some (i : Nat) (w : World σ) (t : Table) (h : (w.journals i).captured = some t) :
+    (exit i w).trace = w.trace ++ [.exit i] := by
+  simp [exit, h]
+
 theorem block_entries (cfg : Cfg σ) (hdet : DetailsOk cfg) (fuel : Nat) (j : Nat) :
     ∀ (b : Block σ) (w : World σ) (act : Bool), Chain w.table →
-      (∀ k, (w.table k).cnt j = b2n act) → NoReentry b → (act = true → j ∉ journalsOf b) →
+      (∀ k, (w.table k).cnt j = b2n act) → (w.journals j).active = act →
       ∃ evs, (runBlock cfg fuel b w).1.trace = w.trace ++ evs ∧
         ent j (runBlock cfg fuel b w).1 = ent j w ++ expectedFor cfg.owner j act evs ∧
         Balanced cfg.owner j act evs := by
   intro b
   induction b with
   | skip =>
-    intro w act _ _ _ _
+    intro w act _ _ _
     exact ⟨[], by simp [runBlock], by simp [runBlock, expectedFor], fun rest => by simp [expectedFor]⟩
   | op p =>
-    intro w act hch hcnt _ _
+    intro w act hch hcnt _
     obtain ⟨_, evs, htr, hcalls, he⟩ :=
       runProg_callSpec cfg.owner j act w.table (dispatch_callSpec cfg hdet j act w.table hch hcnt fuel) p w rfl
     exact ⟨evs, htr, he, fun rest => expectedFor_calls_append cfg.owner j act evs rest hcalls⟩
   | seq a b iha ihb =>
-    intro w act hch hcnt hn hact
-    have hja : act = true → j ∉ journalsOf a := fun h hm => hact h (by simp [journalsOf, hm])
-    have hjb : act = true → j ∉ journalsOf b := fun h hm => hact h (by simp [journalsOf, hm])
-    obtain ⟨evs1, htr1, he1, hb1⟩ := iha w act hch hcnt hn.1 hja
-    have hres := (block_restore cfg fuel a w hn.1).1
+    intro w act hch hcnt hact
+    obtain ⟨evs1, htr1, he1, hb1⟩ := iha w act hch hcnt hact
+    have hres := (block_restore cfg fuel a w).1
     simp only [runBlock]
     split
     · have hch' : Chain (runBlock cfg fuel a w).1.table := by rw [hres]; exact hch
       have hcnt' : ∀ k, ((runBlock cfg fuel a w).1.table k).cnt j = b2n act := by rw [hres]; exact hcnt
-      obtain ⟨evs2, htr2, he2, hb2⟩ := ihb _ act hch' hcnt' hn.2 hjb
+      have hact' : ((runBlock cfg fuel a w).1.journals j).active = act := by
+        rw [block_active_restore]; exact hact
+      obtain ⟨evs2, htr2, he2, hb2⟩ := ihb _ act hch' hcnt' hact'
       refine ⟨evs1 ++ evs2, by rw [htr2, htr1, List.append_assoc], ?_, ?_⟩
       · rw [he2, he1, hb1 evs2, List.append_assoc]
       · intro rest
         rw [List.append_assoc, hb1 (evs2 ++ rest), hb2 rest, hb1 evs2, List.append_assoc]
     · exact ⟨evs1, htr1, he1, hb1⟩
   | withJ i body ih =>
-    intro w act hch hcnt hn hact
-    have hcapt := runBlock_captured cfg fuel body (enter i w) i hn.1
-    have hcap : ((runBlock cfg fuel body (enter i w)).1.journals i).captured = some w.table := by
-      rw [hcapt.1]; simp [enter, upd]
-    have hch1 : Chain (enter i w).table := fun k => ⟨rfl, hch k⟩
-    by_cases hij : i = j
-    · subst hij
-      have hact' : act = false := by
-        cases act with
-        | false => rfl
-        | true => exact absurd (List.mem_cons_self ..) (hact rfl)
-      subst hact'
-      have hcnt1 : ∀ k, ((enter i w).table k).cnt i = b2n true := by
-        intro k
-        show (Impl.wrap i k (w.table k)).cnt i = _
-        rw [cnt_enter, hcnt k]; simp [b2n]
-      obtain ⟨evs, htr, he, hb⟩ := ih (enter i w) true hch1 hcnt1 hn.2 (fun _ => hn.1)
-      refine ⟨.enter i :: (evs ++ [.exit i]), ?_, ?_, ?_⟩
-      · simp only [runBlock, exit, hcap]
-        rw [htr]; simp [enter]
-      · simp only [runBlock, exit, hcap]
-        show ent i (runBlock cfg fuel body (enter i w)).1 = _
-        rw [he, ent_enter]
-        have := hb [.exit i]
-        simp only [expectedFor, if_true] at this ⊢
-        rw [this]; simp
-      · intro rest
-        have h1 := hb (.exit i :: rest)
-        have h2 := hb [.exit i]
-        simp only [List.cons_append, List.append_assoc, List.nil_append, List.append_nil, expectedFor, if_true] at h1 h2 ⊢
-        rw [h1, h2]
-    · have hcnt1 : ∀ k, ((enter i w).table k).cnt j = b2n act := by
-        intro k
-        show (Impl.wrap i k (w.table k)).cnt j = _
-        rw [cnt_enter, hcnt k]; simp [hij]
-      have hact1 : act = true → j ∉ journalsOf body :=
-        fun h hm => hact h (by simp [journalsOf, hm])
-      obtain ⟨evs, htr, he, hb⟩ := ih (enter i w) act hch1 hcnt1 hn.2 hact1
-      refine ⟨.enter i :: (evs ++ [.exit i]), ?_, ?_, ?_⟩
-      · simp only [runBlock, exit, hcap]
-        rw [htr]; simp [enter]
-      · simp only [runBlock, exit, hcap]
-        show ent j (runBlock cfg fuel body (enter i w)).1 = _
-        rw [he, ent_enter]
-        have := hb [.exit i]
-        simp only [expectedFor, hij, if_false] at this ⊢
-        rw [this]; simp
-      · intro rest
-        have h1 := hb (.exit i :: rest)
-        have h2 := hb [.exit i]
-        simp only [List.cons_append, List.append_assoc, List.nil_append, List.append_nil, expectedFor, hij, if_false] at h1 h2 ⊢
-        rw [h1, h2]
+    intro w act hch hcnt hact
+    cases hi : (w.journals i).active with
+    | true =>
+      -- refused: nothing happens
+      rw [runBlock_withJ_refused cfg fuel i body w hi]
+      exact ⟨[], by simp, by simp [expectedFor], fun rest => by simp [expectedFor]⟩
+    | false =>
+      rw [runBlock_withJ_entered cfg fuel i body w hi]
+      have hacti : ((enterRaw i w).journals i).active = true := by simp [enterRaw, upd]
+      have hcapt := runBlock_frame_active cfg fuel body (enterRaw i w) i hacti
+      have hcap : ((runBlock cfg fuel body (enterRaw i w)).1.journals i).captured = some w.table := by
+        rw [hcapt.1]; simp [enterRaw, upd]
+      have hch1 : Chain (enterRaw i w).table := fun k => ⟨rfl, hch k⟩
+      by_cases hij : i = j
+      · subst hij
+        have hact' : act = false := by rw [← hact]; exact hi
+        subst hact'
+        have hcnt1 : ∀ k, ((enterRaw i w).table k).cnt i = b2n true := by
+          intro k
+          show (Impl.wrap i k (w.table k)).cnt i = _
+          rw [cnt_enter, hcnt k]; simp [b2n]
+        obtain ⟨evs, htr, he, hb⟩ := ih (enterRaw i w) true hch1 hcnt1 hacti
+        refine ⟨.enter i :: (evs ++ [.exit i]), ?_, ?_, ?_⟩
+        · show (exit i _).trace = _
+          rw [trace_exit_some i _ _ hcap, htr]; simp [enterRaw]
+        · show ent _ (exit i _) = _
+          rw [ent_exit, he, ent_enterRaw]
+          have := hb [.exit i]
+          simp only [expectedFor, if_true] at this ⊢
+          rw [this]; simp
+        · intro rest
+          have h1 := hb (.exit i :: rest)
+          have h2 := hb [.exit i]
+          simp only [List.cons_append, List.append_assoc, List.nil_append, List.append_nil, expectedFor, if_true] at h1 h2 ⊢
+          rw [h1, h2]
+      · have hcnt1 : ∀ k, ((enterRaw i w).table k).cnt j = b2n act := by
+          intro k
+          show (Impl.wrap i k (w.table k)).cnt j = _
+          rw [cnt_enter, hcnt k]; simp [hij]
+        have hactj : ((enterRaw i w).journals j).active = act := by
+          rw [enterRaw_other i j w (fun e => hij e.symm)]; exact hact
+        obtain ⟨evs, htr, he, hb⟩ := ih (enterRaw i w) act hch1 hcnt1 hactj
+        refine ⟨.enter i :: (evs ++ [.exit i]), ?_, ?_, ?_⟩
+        · show (exit i _).trace = _
+          rw [trace_exit_some i _ _ hcap, htr]; simp [enterRaw]
+        · show ent _ (exit i _) = _
+          rw [ent_exit, he, ent_enterRaw]
+          have := hb [.exit i]
+          simp only [expectedFor, hij, if_false] at this ⊢
+          rw [this]; simp
+        · intro rest
+          have h1 := hb (.exit i :: rest)
+          have h2 := hb [.exit i]
+          simp only [List.cons_append, List.append_assoc, List.nil_append, List.append_nil, expectedFor, hij, if_false] at h1 h2 ⊢
+          rw [h1, h2]
   | attempt body ih =>
-    intro w act hch hcnt hn hact
-    exact ih w act hch hcnt hn hact
+    intro w act hch hcnt hact
+    exact ih w act hch hcnt hact
 
 /-! ### entries hold no strong reference -/
 
@@ -689,11 +802,15 @@ theorem allWeak_stable : Stable (AllWeak (σ := σ)) where
       simp [List.flatMap_append, this, mkEntry, Entry.strong]
     · exact h i
 
-theorem heldBy_enter (j i : Nat) (w : World σ) : heldBy ((enter j w).journals i) = heldBy (w.journals i) := by
-  simp only [enter, upd, heldBy]
+theorem heldBy_enterRaw (j i : Nat) (w : World σ) :
+    heldBy ((enterRaw j w).journals i) = heldBy (w.journals i) := by
+  simp only [enterRaw, upd, heldBy]
   split
   · next h => subst h; rfl
   · rfl
+
+theorem heldBy_exit (j i : Nat) (w : World σ) : heldBy ((exit j w).journals i) = heldBy (w.journals i) := by
+  simp only [heldBy, exit_entries]
 
 theorem block_allWeak (cfg : Cfg σ) (fuel : Nat) :
     ∀ (b : Block σ) (w : World σ), AllWeak w → AllWeak (runBlock cfg fuel b w).1 := by
@@ -711,11 +828,16 @@ theorem block_allWeak (cfg : Cfg σ) (fuel : Nat) :
     · exact iha w h
   | withJ j body ih =>
     intro w h
-    have h1 : AllWeak (enter j w) := fun i => by rw [heldBy_enter]; exact h i
-    have h2 := ih (enter j w) h1
-    intro i
-    simp only [runBlock, exit_journals]
-    exact h2 i
+    cases hj : (w.journals j).active with
+    | true => rw [runBlock_withJ_refused cfg fuel j body w hj]; exact h
+    | false =>
+      rw [runBlock_withJ_entered cfg fuel j body w hj]
+      have h1 : AllWeak (enterRaw j w) := fun i => by rw [heldBy_enterRaw]; exact h i
+      have h2 := ih (enterRaw j w) h1
+      intro i
+      show heldBy ((exit j _).journals i) = []
+      rw [heldBy_exit]
+      exact h2 i
   | attempt body ih => intro w h; exact ih w h
 
 end IrVerif.Journal
